@@ -48,6 +48,10 @@ type Op struct {
 	// Overrun marks a write whose timestamps run into an already committed domain of at
 	// least one channel of the writer: the following commit must be refused.
 	Overrun bool `json:"overrun,omitempty"`
+	// Skip lists index groups (index channel id) and free channels (own id) of the writer
+	// that this frame leaves out: a writer may send frames that carry only some of its
+	// channels, and so only reach some of its leaseholders.
+	Skip []uint32 `json:"skip,omitempty"`
 	// read
 	A int64 `json:"a,omitempty"`
 	B int64 `json:"b,omitempty"`
@@ -56,6 +60,15 @@ type Op struct {
 	Unknown []Unknown `json:"unknown,omitempty"`
 	// Pos is the position at which the existing channels are spliced into the unknown keys.
 	Pos int `json:"pos,omitempty"`
+}
+
+func (o Op) skips(g uint32) bool {
+	for _, x := range o.Skip {
+		if x == g {
+			return true
+		}
+	}
+	return false
 }
 
 // Script is a complete case.
@@ -82,6 +95,11 @@ type WState struct {
 	Sync       bool
 	PendTS     []int64
 	PendVals   map[uint32][][]byte
+	// PendTSk holds, per leased channel, the timestamps of its uncommitted samples; a write
+	// may leave out whole groups (Op.Skip), so channels of one writer can differ. LastG is the
+	// last timestamp written per index group since the writer was opened.
+	PendTSk map[uint32][]int64
+	LastG   map[uint32]int64
 	Avail      []int64
 	Wrote      int
 	Overrun    bool
@@ -161,7 +179,7 @@ func (s *State) Leaseholders(ids []uint32) []int {
 
 func (s *State) ApplyOpen(op Op) *WState {
 	w := &WState{ID: op.W, Via: op.Via, Channels: op.Channels, Start: op.Start, Last: op.Start - 1, Bound: tsInf,
-		AutoCommit: op.AutoCommit, Sync: op.Sync, DataOnly: op.DataOnly, PendVals: map[uint32][][]byte{}, ChanBound: map[uint32]int64{}}
+		AutoCommit: op.AutoCommit, Sync: op.Sync, DataOnly: op.DataOnly, PendVals: map[uint32][][]byte{}, ChanBound: map[uint32]int64{}, PendTSk: map[uint32][]int64{}, LastG: map[uint32]int64{}}
 	for _, k := range op.Channels {
 		if s.Chans[k].Lease == 0 {
 			continue
@@ -199,6 +217,11 @@ func (s *State) ApplyOpen(op Op) *WState {
 func (s *State) ApplyWrite(op Op) {
 	w := s.Writers[op.W]
 	for _, k := range w.Leased {
+		if op.skips(s.group(k)) {
+			continue
+		}
+		w.LastG[s.group(k)] = op.TS[len(op.TS)-1]
+		w.PendTSk[k] = append(w.PendTSk[k], op.TS...)
 		sp := s.M.Chans[k].Spec
 		for _, t := range op.TS {
 			var v []byte
@@ -227,10 +250,33 @@ func (s *State) ApplyCommit(id int) {
 		return
 	}
 	for _, k := range w.Leased {
-		s.M.Chans[k].Commit(w.Start, w.Last+1, w.PendTS, w.PendVals[k])
+		last, wrote := w.LastG[s.group(k)]
+		if !wrote {
+			continue // nothing was ever written to this group through this writer: no domain
+		}
+		s.M.Chans[k].Commit(w.Start, last+1, w.PendTSk[k], w.PendVals[k])
 		w.PendVals[k] = nil
+		w.PendTSk[k] = nil
 	}
 	w.PendTS = nil
+}
+
+// writerUnits lists what a frame of the writer can leave out as a whole: its index groups
+// (by index channel id) and its free channels (by their own id), in channel order.
+func writerUnits(s *State, w *WState) []uint32 {
+	var out []uint32
+	seen := map[uint32]bool{}
+	for _, k := range w.Channels {
+		u := k
+		if s.Chans[k].Lease != 0 {
+			u = s.group(k)
+		}
+		if !seen[u] {
+			seen[u] = true
+			out = append(out, u)
+		}
+	}
+	return out
 }
 
 func (s *State) ApplyClose(id int) { delete(s.Writers, id) }
@@ -447,6 +493,16 @@ func genScript(t *rapid.T) Script {
 				}
 				if len(op.TS) == 0 {
 					continue
+				}
+				// one write in three of a writer with several groups / free channels
+				// carries only some of them
+				if units := writerUnits(st, w); !overrun && len(units) > 1 && rapid.IntRange(0, 2).Draw(t, "partial-frame") == 0 {
+					keep := rapid.IntRange(0, len(units)-1).Draw(t, "keep-unit")
+					for i, u := range units {
+						if i != keep && rapid.Bool().Draw(t, "skip-unit") {
+							op.Skip = append(op.Skip, u)
+						}
+					}
 				}
 			}
 			st.ApplyWrite(op)
